@@ -1131,7 +1131,14 @@ def import_private_helpers(tree, trees, pkg):
                 # a public function of another module is brought over only when it is a one-expression function (a named expression,
                 # e.g. "first item with this label") and is used here through direct calls only; it gets a private local name
                 fbody = [b for b in fn.body if not (isinstance(b, ast.Expr) and isinstance(b.value, ast.Constant))]
-                if not (len(fbody) == 1 and isinstance(fbody[0], ast.Return) and fbody[0].value is not None) or fn.args.vararg or fn.args.kwarg:
+                one_expr = len(fbody) == 1 and isinstance(fbody[0], ast.Return) and fbody[0].value is not None
+                # .. or a short straight-line computation (local assignments, an `if` on a parameter, one final return): a named
+                # derivation such as "the runs of valid frames of these samples", shared by sibling classes
+                straight = 1 < len(fbody) <= 8 and isinstance(fbody[-1], ast.Return) and fbody[-1].value is not None \
+                    and all(isinstance(b, (ast.Assign, ast.If)) for b in fbody[:-1]) \
+                    and not any(isinstance(y, (ast.For, ast.While, ast.With, ast.Try, ast.Raise, ast.Yield, ast.YieldFrom, ast.Lambda, ast.FunctionDef, ast.Global, ast.Nonlocal)) for b in fbody for y in ast.walk(b)) \
+                    and sum(isinstance(y, ast.Return) for b in fbody for y in ast.walk(b)) == 1
+                if not (one_expr or straight) or fn.args.vararg or fn.args.kwarg:
                     continue
                 loads_ = [x for x in ast.walk(tree) if isinstance(x, ast.Name) and x.id == a.name and isinstance(x.ctx, ast.Load)]
                 calls_ = [x for x in ast.walk(tree) if isinstance(x, ast.Call) and isinstance(x.func, ast.Name) and x.func.id == a.name]
@@ -1202,7 +1209,7 @@ def _bring_names(fn, src_b, src_modname, tree, here):
     return True
 
 
-def import_private_methods(tree, trees, pkg, modname):
+def import_private_methods(tree, trees, pkg, modname, fold_only=False):
     """`X._helper(a, b)` where X is a module-level object built once by `C(...)` and C (defined here or imported from a module of
     the package) has the plain private method `_helper`: the method is copied as the module function `_C_helper(self, ..)` and the
     call becomes `_C_helper(X, a, b)`, which the helper inliner then treats like any private function."""
@@ -1247,16 +1254,21 @@ def import_private_methods(tree, trees, pkg, modname):
         return []
     copied = {}
     done = []
-    for call in [n for n in ast.walk(tree) if isinstance(n, ast.Call)]:
+    for call in ([] if fold_only else [n for n in ast.walk(tree) if isinstance(n, ast.Call)]):
         f = call.func
-        if not (isinstance(f, ast.Attribute) and isinstance(f.value, ast.Name) and f.value.id in inst and f.attr.startswith("_") and not f.attr.startswith("__")):
+        if not (isinstance(f, ast.Attribute) and isinstance(f.value, ast.Name) and f.value.id in inst and not f.attr.startswith("__")):
             continue
         cdef, src, src_mod = classes[inst[f.value.id]]
+        if not f.attr.startswith("_") and (cdef.name in ("TdfType", "BTSString", "BTSDate", "CameraViewPort", "Tdf", "TdfEntry")
+                                           or sum(isinstance(m_, ast.FunctionDef) for m_ in cdef.body) > 6 or cdef.bases and any(ast.unparse(b_) not in ("object",) for b_ in cdef.bases)):
+            # public methods are brought over only for small helper classes (a field descriptor, a named pair of operations) - never for
+            # the codec primitives, whose calls are the atoms of the layout interpreter
+            continue
         meth = next((m for m in cdef.body if isinstance(m, ast.FunctionDef) and m.name == f.attr and not m.decorator_list), None)
         if meth is None or not meth.args.args:
             continue
         cname = cdef.name
-        new_name = f"_{cname}{f.attr}"
+        new_name = f"_{cname.lstrip('_')}{f.attr if f.attr.startswith('_') else '_' + f.attr}"
         if new_name not in copied:
             if new_name in here:
                 continue
@@ -1270,9 +1282,65 @@ def import_private_methods(tree, trees, pkg, modname):
             done.append(f"{cname}.{f.attr}")
         call.args = [f.value] + list(call.args)
         call.func = ast.copy_location(ast.Name(id=new_name, ctx=ast.Load()), f)
+    done += _fold_instance_constants(tree, inst, classes, trees, pkg)
     if done:
         ast.fix_missing_locations(tree)
     return done
+
+
+def _fold_instance_constants(tree, inst, classes, trees, pkg):
+    """X = C(256) at module level (here or in the module X was imported from), C a plain class whose constructor only stores its
+    parameters (`self.size = size`, or a dataclass field list), and nothing ever stores into an attribute of X: `X.size` is 256."""
+    folded = []
+    ctor_of = {}
+    for st in tree.body:
+        if isinstance(st, ast.Assign) and isinstance(st.value, ast.Call):
+            for t in st.targets:
+                if isinstance(t, ast.Name) and t.id in inst:
+                    ctor_of[t.id] = st.value
+        if isinstance(st, ast.ImportFrom) and st.module:
+            parts = st.module.split(".")
+            if parts[0] == pkg and len(parts) == 2 and parts[1] in trees:
+                for a in st.names:
+                    nm = a.asname or a.name
+                    if nm in inst and nm not in ctor_of:
+                        d = next((x for x in trees[parts[1]].body if isinstance(x, ast.Assign) and any(isinstance(t, ast.Name) and t.id == a.name for t in x.targets) and isinstance(x.value, ast.Call)), None)
+                        if d is not None:
+                            ctor_of[nm] = d.value
+    for name, call in ctor_of.items():
+        cdef = classes[inst[name]][0]
+        if call.keywords and any(k.arg is None for k in call.keywords) or any(isinstance(a, ast.Starred) for a in call.args):
+            continue
+        fields = None
+        init = next((m for m in cdef.body if isinstance(m, ast.FunctionDef) and m.name == "__init__"), None)
+        is_dc = any("dataclass" in ast.unparse(d) for d in cdef.decorator_list)
+        if init is not None:
+            params = [a.arg for a in init.args.args[1:]]
+            body = [b for b in init.body if not (isinstance(b, ast.Expr) and isinstance(b.value, ast.Constant))]
+            if all(isinstance(b, ast.Assign) and len(b.targets) == 1 and isinstance(b.targets[0], ast.Attribute) and isinstance(b.targets[0].value, ast.Name)
+                   and b.targets[0].value.id == init.args.args[0].arg and isinstance(b.value, ast.Name) and b.value.id in params for b in body) and not init.args.vararg and not init.args.kwarg:
+                fields = {b.targets[0].attr: b.value.id for b in body}
+        elif is_dc:
+            params = [b.target.id for b in cdef.body if isinstance(b, ast.AnnAssign) and isinstance(b.target, ast.Name)]
+            fields = {p_: p_ for p_ in params}
+        if not fields:
+            continue
+        actual = dict(zip(params, call.args))
+        actual.update({k.arg: k.value for k in call.keywords})
+        stored = any(isinstance(x, ast.Attribute) and isinstance(x.ctx, (ast.Store, ast.Del)) and isinstance(x.value, ast.Name) and x.value.id == name for x in ast.walk(tree))
+        if stored:
+            continue
+
+        class F(ast.NodeTransformer):
+            def visit_Attribute(self, node):
+                self.generic_visit(node)
+                if isinstance(node.ctx, ast.Load) and isinstance(node.value, ast.Name) and node.value.id == name and node.attr in fields \
+                        and isinstance(actual.get(fields[node.attr]), ast.Constant):
+                    folded.append(f"{name}.{node.attr}")
+                    return ast.copy_location(ast.Constant(value=actual[fields[node.attr]].value), node)
+                return node
+        F().visit(tree)
+    return sorted(set(folded))
 
 
 def flag_and_loops(tree):
@@ -1629,8 +1697,100 @@ def _inline_helpers(tree, bases, info):
 
 
 # ------------------------------------------------------------------------------------------- driver
+class _StripFunctionAnnotations(ast.NodeTransformer):
+    """Inside function bodies an annotation is a no-op at run time: `x: T = v` is `x = v`, `self.a: T = v` is `self.a = v`, a bare
+    `x: T` does nothing.  (Class bodies are left alone: there annotations are what dataclasses / NamedTuples are made of.)"""
+
+    def __init__(self):
+        self.depth = 0
+
+    def visit_FunctionDef(self, node):
+        self.depth += 1
+        self.generic_visit(node)
+        self.depth -= 1
+        if not node.body:
+            node.body = [ast.Pass()]
+        return node
+
+    visit_AsyncFunctionDef = visit_FunctionDef
+
+    def visit_ClassDef(self, node):
+        d, self.depth = self.depth, 0
+        self.generic_visit(node)
+        self.depth = d
+        return node
+
+    def visit_AnnAssign(self, node):
+        if not self.depth:
+            return node
+        if node.value is None:
+            return None
+        return ast.copy_location(ast.Assign(targets=[node.target], value=node.value), node)
+
+
+def _fix_empty_bodies(tree):
+    for n in ast.walk(tree):
+        for fld in ("body", "orelse", "finalbody"):
+            b = getattr(n, fld, None)
+            if isinstance(b, list) and not b and fld == "body" and isinstance(n, (ast.If, ast.For, ast.While, ast.With, ast.Try, ast.FunctionDef, ast.ExceptHandler)):
+                setattr(n, fld, [ast.Pass()])
+
+
+def _drop_overload_stubs(tree):
+    """`@overload def f(..): ...` stubs are replaced by the last, undecorated definition of the same name when the class / module
+    body runs: they never execute."""
+    for n in ast.walk(tree):
+        b = getattr(n, "body", None)
+        if isinstance(n, (ast.Module, ast.ClassDef)) and isinstance(b, list):
+            stubs = [st for st in b if isinstance(st, ast.FunctionDef) and any(ast.unparse(d) in ("overload", "typing.overload") for d in st.decorator_list)]
+            for st in stubs:
+                if any(o is not st and isinstance(o, ast.FunctionDef) and o.name == st.name and b.index(o) > b.index(st)
+                       and not any(ast.unparse(d) in ("overload", "typing.overload") for d in o.decorator_list) for o in b):
+                    b.remove(st)
+
+
+class _SuppressToTry(ast.NodeTransformer):
+    """with contextlib.suppress(E1, E2): BODY     ==>     try: BODY  except (E1, E2): pass"""
+
+    def visit_With(self, node):
+        self.generic_visit(node)
+        if len(node.items) == 1 and node.items[0].optional_vars is None and isinstance(node.items[0].context_expr, ast.Call) \
+                and ast.unparse(node.items[0].context_expr.func) in ("suppress", "contextlib.suppress") and node.items[0].context_expr.args \
+                and not node.items[0].context_expr.keywords:
+            excs = node.items[0].context_expr.args
+            typ = excs[0] if len(excs) == 1 else ast.Tuple(elts=list(excs), ctx=ast.Load())
+            t = ast.copy_location(ast.Try(body=node.body, handlers=[ast.ExceptHandler(type=typ, name=None, body=[ast.Pass()])], orelse=[], finalbody=[]), node)
+            t._from_suppress = True
+            return t
+        return node
+
+
+def _absorb_after_suppress(tree):
+    """try: ..; return X  except E: pass ; REST      ==>     try: ..; return X  except E: REST
+    (the body never falls through, so only the handler reaches REST)"""
+    import copy as _cp
+    for n in ast.walk(tree):
+        for fld in ("body", "orelse", "finalbody"):
+            b = getattr(n, fld, None)
+            if not isinstance(b, list):
+                continue
+            for i, st in enumerate(b):
+                if isinstance(st, ast.Try) and getattr(st, "_from_suppress", False) and st.body and isinstance(st.body[-1], (ast.Return, ast.Raise)) and i + 1 < len(b):
+                    rest = b[i + 1:]
+                    st.handlers[0].body = [_cp.deepcopy(x) for x in rest]
+                    del b[i + 1:]
+                    break
+
+
 def normalise_module(tree: ast.Module):
     info = {"constants": 0, "inlined": {}, "dropped_helpers": []}
+    _StripFunctionAnnotations().visit(tree)
+    _drop_overload_stubs(tree)
+    if any(isinstance(st, (ast.Import, ast.ImportFrom)) and any("suppress" in (a.name, a.asname) or a.name == "contextlib" for a in st.names) for st in tree.body):
+        _SuppressToTry().visit(tree)
+        _absorb_after_suppress(tree)
+    _fix_empty_bodies(tree)
+    ast.fix_missing_locations(tree)
     from .normalize2 import ForwardTemps, NamedTupleReduce, desugar_module, inline_closures, namedtuples
     from . import normalize2 as _n2
     _n2.extract_private_class_methods(tree)
